@@ -41,7 +41,7 @@ def run_c03(binp, lines, work, tag):
         res, cur = {}, None
         for l in open(outp, errors="replace"):
             if l[0] == "C": cur = l[2:].strip(); res[cur] = []
-            elif l[0] in "PNX": res[cur].append(l.rstrip("\n"))
+            elif l[0] in "PNXQU": res[cur].append(l.rstrip("\n"))
         return res
     out = {}
     with cf.ThreadPoolExecutor(max_workers=nproc) as ex:
@@ -69,14 +69,18 @@ def run(ctx):
     ctx.level = "translation_validation"
     coq.build(["C03/Judge.vo"])
     ok, out = coq.check_props(ctx, "C03")
+    proof_failed = None
     if not ok:
         ctx.log(out[-3000:])
-        ctx.violation("proof", {"theorems": [o for o in ctx.obligations if not o[1]], "log": out[-2000:]}, "C03 proofs do not check", no_input=True)
+        proof_failed = ("proof", {"theorems": [o for o in ctx.obligations if not o[1]], "log": out[-2000:]}, "C03 proofs do not check")
     binp, bout = rust.build("c03")
     if binp is None:
         ctx.violation("harness-build", {"log": bout[-4000:]}, "harness c03 does not build against /repo", no_input=True)
         return
     rng, quick = ctx.rng, ctx.quick
+    # machinery failures (proofs, judge) are reported only after the behavioural runs had their chance to find a
+    # failing input: (key, replay, text)
+    deferred = [proof_failed] if proof_failed else []
     ir_tests, ir_gen = corpus_files()
     c03 = sorted(glob.glob(os.path.join(ROOT, "corpus/C03/ir/*.ir")))
     if len(c03) < 20:
@@ -93,7 +97,7 @@ def run(ctx):
     try:
         res = run_c03(binp, lines, ctx.work, "dedup")
     except RuntimeError as e:
-        ctx.violation("harness-run", {"log": str(e)[-3000:]}, "harness c03 failed to run", no_input=True); return
+        deferred.append(("harness-run", {"log": str(e)[-3000:]}, "harness c03 failed to run the dedup cases")); res = {}
     pairs, nstat = [], collections.Counter()
     for i, (f, pre, dp) in meta.items():
         for l in res.get(i, []):
@@ -122,8 +126,10 @@ def run(ctx):
         try:
             jres = coq.run_cases(ctx, "c03", "From SwayV Require Import Base.Util C03.Model C03.Judge.\nOpen Scope N_scope.", shards)
         except RuntimeError as e:
-            ctx.violation("model-eval", {"log": str(e)[-3000:]}, "C03 judge could not be evaluated", no_input=True); return
+            deferred.append(("model-eval", {"log": str(e)[-3000:]}, "C03 dedup judge could not be evaluated"))
+            jres = []
         codes = [c for sh in jres for c in sh[0]]
+        if len(codes) != len(uniq): codes = []
     acc = sum(1 for c in codes if c == 0)
     for p, c in zip(uniq, codes):
         if c != 0:
@@ -132,7 +138,47 @@ def run(ctx):
                           "%s merged %s into %s although the bodies are not equal modulo renaming (proved checker alpha_eq rejects)" % (p[2], p[3], p[4]))
     ctx.log("fn-dedup: %d runs, %d merged pairs (%d distinct), alpha_eq accepts %d ; %s" % (nstat["runs"], len(pairs), len(uniq), acc, dict(nstat)))
     if acc < 40:
-        ctx.violation("dedup-too-few", {"accepted": acc}, "too few merged pairs were validated: the dedup validator did not exercise the pass", no_input=True)
+        deferred.append(("dedup-too-few", {"accepted": acc}, "too few merged pairs were validated: the dedup validator did not exercise the pass"))
+
+    # ------------------------------------------------------------ (1b) dce / simplify-cfg: validate (before, after) pairs
+    pfiles = (c03[:14] + [f for f in ir_gen if "/gen/" in f] + rng.sample([f for f in ir_gen if "/irgen/" in f], 25)) if quick else c03 + ir_gen + ir_tests
+    pprefixes = ["-", "mem2reg", "inline,mem2reg", "mem2reg,simplify-cfg,ccp,const-folding"]
+    lines, meta = [], {}
+    for f in pfiles:
+        for pre in pprefixes:
+            for ps in ("dce", "simplify-cfg"):
+                i = "p%d" % len(meta); meta[i] = (f, pre, ps); lines.append("pair\t%s\t%s\t%s\t%s" % (i, f, pre, ps))
+    pstat = collections.Counter()
+    suspects = []          # (file, prefix, pass, function, code) not accepted by a validator
+    try:
+        res = run_c03(binp, lines, ctx.work, "pair")
+        cases = {"dce": {}, "simplify-cfg": {}}
+        for i, (f, pre, ps) in meta.items():
+            pend, pure = [], "[]"
+            for l in res.get(i, []):
+                if l[0] == "Q":
+                    _, name, nb, na, rest = l.split(" ", 4)
+                    pend.append((name, rest.split("\x01")))
+                elif l[0] == "U": pure = l[2:].strip()
+                elif l[0] == "N" and l.split(" ")[1] in ("err", "panic"): pstat["run-" + l.split(" ")[1]] += 1
+            for name, (tb, ta, bm) in pend:
+                term = "(%s, %s, %s)" % (pure, tb, ta) if ps == "dce" else "(%s, %s, %s)" % (bm, tb, ta)
+                cases[ps].setdefault(term, (f, pre, ps, name))
+        for ps, fn_, ty in (("dce", "judge_dce_all", "list N * fn * fn"), ("simplify-cfg", "judge_cfg_all", "list nat * fn * fn")):
+            terms = sorted(cases[ps], key=len)
+            if quick: terms = terms[:700]
+            nsh = min(NCPU, max(1, len(terms) // 20))
+            buckets = [terms[k::nsh] for k in range(nsh)]
+            shards = ["Definition cs : list (%s) := [\n%s\n].\nEval vm_compute in (%s cs)." % (ty, ";\n".join(b), fn_) for b in buckets if b]
+            jres = coq.run_cases(ctx, "c03" + ps[:3], "From SwayV Require Import Base.Util C03.Model C03.ModelVal C03.Judge.\nOpen Scope N_scope.", shards, timeout=1500)
+            for b, r in zip([b for b in buckets if b], jres):
+                assert len(r[0]) == len(b)
+                for t, c in zip(b, r[0]):
+                    pstat["%s:%d" % (ps, c)] += 1
+                    if c != 0: suspects.append(cases[ps][t] + (c,))
+    except (RuntimeError, AssertionError) as e:
+        deferred.append(("validator-eval", {"log": str(e)[-3000:]}, "C03 dce / simplify-cfg validators could not be evaluated"))
+    ctx.log("pair validators: %s" % dict(pstat))
 
     # ------------------------------------------------------------ (2) behaviour on the VM
     scripts = [f for f in c03 + ir_gen if open(f).read(200).lstrip().startswith("script")]
@@ -151,6 +197,43 @@ def run(ctx):
         x = (base.get(i) or ["X missing"])[0][2:]
         bstat[x.split(" ")[0].split(":")[0]] += 1
         if x.startswith("ok "): baseline[f] = x
+    # targeted search for the pairs a validator did not accept: the same prefix with and without the pass
+    targeted = {}
+    for (f, pre, ps, name, code) in suspects:
+        if f in baseline or (open(f).read(200).lstrip().startswith("script")):
+            targeted.setdefault((f, pre, ps), []).append((name, code))
+    tlines, tmeta = [], {}
+    prel = lambda pre: [p for p in pre.split(",") if p and p != "-"]
+    for (f, pre, ps) in targeted:
+        for tag, mid in (("with", prel(pre) + [ps]), ("without", prel(pre))):
+            i = "t%d" % len(tmeta); tmeta[i] = (f, pre, ps, tag)
+            tlines.append("run\t%s\t%s\t%s" % (i, f, ",".join(LOWER + mid + O0_MID + DEMOTE + TAIL)))
+    tstat = collections.Counter()
+    if tlines:
+        try:
+            tres = run_c03(binp, tlines, ctx.work, "targeted")
+            got = {}
+            for i, (f, pre, ps, tag) in tmeta.items():
+                got[(f, pre, ps, tag)] = (tres.get(i) or ["X missing"])[0][2:]
+            for (f, pre, ps), fl in targeted.items():
+                a, b = got[(f, pre, ps, "with")], got[(f, pre, ps, "without")]
+                if not b.startswith("ok "): tstat["not-runnable"] += 1
+                elif a == b: tstat["same"] += 1
+                else:
+                    tstat["DIFF"] += 1
+                    ctx.violation("%s:%s" % (short(f), ",".join(prel(pre) + [ps])),
+                                  {"ir_file": f, "prefix": pre, "pass": ps, "functions_not_validated": fl[:10], "with": a[:400], "without": b[:400]},
+                                  "%s after [%s] on %s: the structural validator does not accept the change of %s and the script behaves differently with the pass (%s) than without (%s)"
+                                  % (ps, pre, short(f), fl[0][0], a[:120], b[:120]))
+        except RuntimeError as e:
+            deferred.append(("harness-run", {"log": str(e)[-2000:]}, "targeted behavioural runs failed"))
+    # a removed value that is still used (code 2) is wrong whatever the VM says
+    for (f, pre, ps, name, code) in suspects:
+        if ps == "dce" and code == 2:
+            deferred.append(("%s:%s,dce:%s:dangling" % (short(f), pre, name), {"ir_file": f, "prefix": pre, "function": name},
+                             "dce removed an instruction whose value is still used in %s" % name))
+    ctx.log("targeted behavioural search for %d unvalidated (module, prefix, pass): %s" % (len(targeted), dict(tstat)))
+
     lines, meta = [], {}
     for f in baseline:
         for name, ps in vs:
@@ -191,7 +274,10 @@ def run(ctx):
     if len(baseline) < 20 or vstat["same"] < 500:
         ctx.violation("behaviour-too-few", {"scripts": len(baseline), "stat": dict(vstat)}, "too few behavioural comparisons were possible", no_input=True)
 
+    for key, rep, text in deferred:
+        ctx.violation(key, rep, text + " (behavioural runs found no failing input)", no_input=True)
     ctx.coverage.update({
+        "pair_validators": dict(pstat), "targeted_search": dict(tstat),
         "programs": len(baseline) + len(c03 + ir_gen + ir_tests),
         "disagreements_checked": len(uniq),
         "samples": [{"file": short(p[0]), "pass": p[2], "merged": "%s -> %s" % (p[3], p[4])} for p in uniq[:3]]
